@@ -1025,6 +1025,12 @@ def replay_bls_sign_verify(args):
                 continue
             if S.Verify(pk, msg, sig) is not True:
                 bad.append(("honest signature rejected", sk, msg.hex()))
+            if sk in (1, 2):
+                # messages correlated with the key material (the property quantifies over every message)
+                for m2 in (bytes(pk), bytes(pk) + b"\x00", sk.to_bytes(32, "big"), bytes(sig), b"", bytes(S.DST)):
+                    if S.Verify(pk, m2, S.Sign(sk, m2)) is not True:
+                        bad.append(("honest signature rejected on a key-derived message", sk, m2.hex()[:40]))
+                        break
         except ValidationError:
             if valid:
                 bad.append(("refused valid sk", sk))
@@ -1292,6 +1298,11 @@ def replay_bls_total(args):
         for nm, s_ in sigs:
             calls.append(("Verify sig " + nm, lambda s_=s_: S.Verify(pk, msg, s_)))
             calls.append(("AggregateVerify sig " + nm, lambda s_=s_: S.AggregateVerify([pk], [msg], s_)))
+        from py_ecc.optimized_bls12_381 import Z2 as _Z2
+        for nm, s_ in (("honest", good_sig), ("identity", G2_to_signature(_Z2)), ("empty", b"")):
+            calls.append(("AggregateVerify no keys, sig " + nm, lambda s_=s_: S.AggregateVerify([], [], s_)))
+            if sname == "G2ProofOfPossession":
+                calls.append(("FastAggregateVerify no keys, sig " + nm, lambda s_=s_: S.FastAggregateVerify([], msg, s_)))
         if sname == "G2ProofOfPossession":
             for nm, k in keys[:14]:
                 calls.append(("PopVerify key " + nm, lambda k=k: S.PopVerify(k, good_sig)))
@@ -1486,7 +1497,12 @@ def replay_c16_hkdf(args):
     Ls = [0, 1, 31, 32, 33, 48, 64, 65, 255 * 32]
     if args.get("L"):
         Ls.insert(0, int(args["L"]))
-    for salt, ikm, info in ((b"", b"", b""), (b"salt", b"ikm", b"info"), (b"\x00" * 80, b"\xff" * 300, b"i" * 300)):
+    cases = [(b"", b"", b""), (b"salt", b"ikm", b"info"), (b"\x00" * 80, b"\xff" * 300, b"i" * 300)]
+    if "salt_len" in args:
+        cases.insert(0, (bytes((7 * i + 1) % 256 for i in range(int(args["salt_len"]))), bytes((3 * i + 2) % 256 for i in range(int(args.get("ikm_len", 3)))), b"info"))
+    for n in (63, 64, 65, 128):
+        cases.append((bytes(range(n)), b"ikm" * (n // 8), b"x" * (n - 60)))
+    for salt, ikm, info in cases:
         prk, _ = rfc_hkdf(salt, ikm, info, 0)
         if bytes(hkdf_extract(salt, ikm)) != prk:
             bad.append(("extract",))
@@ -1603,7 +1619,10 @@ def replay_c18_affine(args):
         got = tuple(int(c) for c in sp.add(a, b))
         if got != exp:
             bad.append((a[0] % 1000, b[0] % 1000, got[0] % 1000))
-    for d in (b"\x01", (5).to_bytes(32, "big"), (_SN - 1).to_bytes(32, "big"), b"\x00" * 31 + b"\x02"):
+    ds = [b"\x01", (5).to_bytes(32, "big"), (_SN - 1).to_bytes(32, "big"), b"\x00" * 31 + b"\x02", (7).to_bytes(32, "big") + b"\x01", b"\x00" + (9).to_bytes(32, "big")]
+    if "key_len" in args:
+        ds.insert(0, bytes((5 * i + 3) % 256 for i in range(int(args["key_len"]))))
+    for d in ds:
         if tuple(sp.privtopub(d)) != _sec_mul(_SG, int.from_bytes(d, "big")):
             bad.append(("privtopub", d.hex()[:8]))
     return (len(bad) > 0), "c18_affine: %d mismatches %s" % (len(bad), str(bad[:3])[:200])
@@ -1848,7 +1867,9 @@ def replay_c07_twist(args):
         p = m.field_modulus
         x = P[0]
         c0, c1 = int(x.coeffs[0]), int(x.coeffs[1])
-        w = m.w
+        w = m.FQ12([0, 1] + [0] * 10)
+        if [int(c) for c in m.w.coeffs] != [0, 1] + [0] * 10:
+            bad.append(("module constant w is not the adjoined root",))
         if impl == "ref":
             tx = tw((P[0], P[1]))[0]
             base = tx * (w ** 2) if curve == "bls12_381" else tx
@@ -1862,6 +1883,18 @@ def replay_c07_twist(args):
         exp[shift + 6] = c1 % p
         if [int(c) for c in base.coeffs] != exp:
             bad.append(("coefficients",))
+        # y coordinate and cross-module agreement: affine twist = (psi(x) u^2, psi(y) u^3) with the standard u
+        T = tw((P[0], P[1])) if impl == "ref" else tw(P)
+        if impl == "opt":
+            T = (T[0] / T[2], T[1] / T[2])
+        y = P[1] if impl == "ref" else P[1] / P[2]
+        d0, d1 = int(y.coeffs[0]), int(y.coeffs[1])
+        psi_y = m.FQ12([(d0 - k * d1) % p] + [0] * 5 + [d1 % p] + [0] * 5)
+        if curve == "bls12_381":
+            if T[1] * (w ** 3) != psi_y:
+                bad.append(("y coordinate is not psi(y) / w^3",))
+        elif T[1] != psi_y * (w ** 3):
+            bad.append(("y coordinate is not psi(y) * w^3",))
     except Exception as e:
         bad.append((repr(e)[:60],))
     return (len(bad) > 0), "c07_twist %s %s: %s" % (impl, curve, bad[:3])
@@ -1938,6 +1971,20 @@ def replay_c17_clear(args):
         C = multiply_clear_cofactor_G2(P)
         if not subgroup_check(C):
             bad.append(("G2 clearing leaves the subgroup", kind))
+    # points already inside the prime-order subgroup, scaled representatives and the identity
+    from py_ecc.optimized_bls12_381 import G1, G2, Z1, Z2
+    HE2 = 0xbc69f08f2ee75b3584c6a0ea91b352888e2a8e9145ad7689986ff031508ffe1329c2f178731db956d82bf015d1212b02ec0ec69d7477c1ae954cbc06689f6a359894c0adebbf6b4e8020005aaa95551
+    for k in (1, 7):
+        P = multiply(G1, k)
+        P = (P[0] * 5, P[1] * 5, P[2] * 5)
+        if normalize(multiply_clear_cofactor_G1(P)) != normalize(multiply(P, 0xd201000000010001)):
+            bad.append(("G1 clearing of a subgroup point is not h_eff * P", k))
+        Q = multiply(G2, k)
+        Q = (Q[0] * 3, Q[1] * 3, Q[2] * 3)
+        if normalize(multiply_clear_cofactor_G2(Q)) != normalize(multiply(Q, HE2)):
+            bad.append(("G2 clearing of a subgroup point is not h_eff * P", k))
+    if not is_inf(multiply_clear_cofactor_G1(Z1)) or not is_inf(multiply_clear_cofactor_G2(Z2)):
+        bad.append(("clearing the identity",))
     return (len(bad) > 0), "c17_clear: %d failures %s" % (len(bad), bad[:3])
 
 
@@ -2379,3 +2426,27 @@ def replay_bls_vectors(args):
         if len(bad) > 3:
             break
     return (len(bad) > 0), "bls_vectors: %d mismatches %s" % (len(bad), str(bad[:3])[:200])
+
+
+def replay_c07_small(args):
+    """exhaustive concrete run of the reference curve functions over a small curve."""
+    from py_ecc.fields import field_elements as fe
+    m = importlib.import_module(_REF_MODS[args["curve"]])
+    p, b = args["p"], args["b"]
+    T = type("SmallFQ", (fe.FQ,), {"field_modulus": p})
+    pts = [None] + [(x, y) for x in range(p) for y in range(p) if (y * y - x * x * x - b) % p == 0]
+    mk = lambda P: None if P is None else (T(P[0]), T(P[1]))
+    un = lambda P: None if P is None else (int(P[0]), int(P[1]))
+    bad = []
+    for P in pts:
+        for Q in pts:
+            try:
+                s = un(m.add(mk(P), mk(Q)))
+                if s != aff_add(P, Q, p) or s != un(m.add(mk(Q), mk(P))) or (s is not None and s not in pts):
+                    bad.append(("add", P, Q))
+                for R_ in pts:
+                    if un(m.add(m.add(mk(P), mk(Q)), mk(R_))) != un(m.add(mk(P), m.add(mk(Q), mk(R_)))):
+                        bad.append(("assoc", P, Q, R_))
+            except Exception as e:
+                bad.append((repr(e)[:40], P, Q))
+    return (len(bad) > 0), "c07_small GF(%d) b=%d: %d failures %s" % (p, b, len(bad), str(bad[:2])[:200])
